@@ -99,9 +99,7 @@ func (p *Point) Rename(to, from string, w *World) {
 	if !ok {
 		return
 	}
-	if _, exists := p.K[to]; exists {
-		w.unspec("rename onto an existing key")
-	}
+	// the destination is replaced as a whole (value, kind and type move together)
 	delete(p.K, from)
 	p.K[to] = e
 }
